@@ -5,7 +5,8 @@ VERIF = os.path.dirname(os.path.dirname(os.path.abspath(__file__)))
 
 FIX_COMMITS = ["a719c537bfeba4b5d3bb48b62bd230815cc99987", "9e0461fb5adc42ff352d18ee6e2ea78526e3ca4a",
                "607b6f87a017d916c369756915f8383b1b494629", "3c2488f64c3b351a51808f24f0d7f26842348d3d",
-               "b1582fd01a0ebb3376b0e5e2b7457ef7eafe740e", "70477582b6b9817ff203bb83e1b4dca60d8bb604"]
+               "b1582fd01a0ebb3376b0e5e2b7457ef7eafe740e", "70477582b6b9817ff203bb83e1b4dca60d8bb604",
+               "a3705c316621730aafd980fc7fa4b9bed72bc295", "acb6734a10076efa315e39653a108d7353058c1d"]
 
 NOTE = ("Trusted: Lean 4.33.0 kernel; axioms propext / Classical.choice / Quot.sound only (audited per theorem by #print axioms on every run; "
         "no sorry/admit/native_decide/bv_decide/user axioms). The Lean model of the macro (gen) and of the rustc/core semantics of the emitted "
@@ -51,7 +52,7 @@ def main():
                      "kind_free_text": "Lean 4 model + theorems (lean/StrumModel, lean/StrumProofs), compiled model driver, Python harness that renders one abstract corpus to Rust (real derives from /repo) and to model protocol lines and diffs the outputs"}],
         "checks": checks,
         "not_applicable": na,
-        "notes": "source_commits are the six `fix:` repairs of genuine defects (see known_findings.json and DESIGN.md section 7); there are no hook commits.",
+        "notes": "source_commits are the eight `fix:` repairs of genuine defects (see known_findings.json and DESIGN.md section 7); there are no hook commits.",
     }
     json.dump(m, open(os.path.join(VERIF, 'MANIFEST.json'), 'w'), indent=1)
     print('MANIFEST.json: %d checks, %d not claimed' % (len(checks), len(na)))
